@@ -48,9 +48,11 @@ import (
 	handshakepb "github.com/primevprotocol/mev-commit/gen/go/handshake/v1"
 	preconfpb "github.com/primevprotocol/mev-commit/gen/go/preconfirmation/v1"
 	streammsgv1 "github.com/primevprotocol/mev-commit/gen/go/streammsg/v1"
+	"github.com/primevprotocol/mev-commit/pkg/discovery"
 	mockkeysigner "github.com/primevprotocol/mev-commit/pkg/keysigner/mock"
 	"github.com/primevprotocol/mev-commit/pkg/p2p"
 	"github.com/primevprotocol/mev-commit/pkg/p2p/libp2p/internal/handshake"
+	"github.com/primevprotocol/mev-commit/pkg/topology"
 	"github.com/prometheus/client_golang/prometheus"
 	dto "github.com/prometheus/client_model/go"
 	spb "google.golang.org/genproto/googleapis/rpc/status"
@@ -193,7 +195,23 @@ func c06Classify(in c06In) string {
 	return "FRandom"
 }
 
-func c06RunLocal(in c06In) (obs c06Obs, inp string) {
+// c06LocalInp: the Check_C06 input term of a non-e2e case (computed from the bytes alone).
+func c06LocalInp(in c06In) string {
+	switch in.Entry {
+	case "read-msg":
+		return coqApp("EReadMsg", c06Classify(in))
+	case "read-header":
+		return coqApp("EReadHeader", c06Classify(in))
+	case "unmarshal":
+		return coqApp("EUnmarshal", coqN(uint64(in.Msg)), coqN(uint64(len(in.bytes()))))
+	}
+	return coqApp("EConnect", coqN(uint64(len(in.bytes()))))
+}
+
+// c06RunLocal runs one non-e2e case under recover(). ReadMsg / ReadHeader read the frame on a goroutine
+// of their own and Connect starts libp2p's dialer: a panic there cannot be recovered here, so the
+// parent only runs "unmarshal" itself and sends the other entries to the child process.
+func c06RunLocal(in c06In) (obs c06Obs) {
 	defer func() {
 		if r := recover(); r != nil {
 			obs = c06Obs{Panic: true, Note: fmt.Sprint(r)}
@@ -204,21 +222,15 @@ func c06RunLocal(in c06In) (obs c06Obs, inp string) {
 	var err error
 	switch in.Entry {
 	case "read-msg":
-		inp = coqApp("EReadMsg", c06Classify(in))
 		err = newStream(&c06Net{r: bytes.NewReader(in.bytes())}, nil, nil).ReadMsg(ctx, c06NewMsg(in.Msg))
 	case "read-header":
-		inp = coqApp("EReadHeader", c06Classify(in))
 		_, err = newMetadataStream(&c06Net{r: bytes.NewReader(in.bytes())}).ReadHeader(ctx)
 	case "unmarshal":
-		raw := in.bytes()
-		inp = coqApp("EUnmarshal", coqN(uint64(in.Msg)), coqN(uint64(len(raw))))
-		err = proto.Unmarshal(raw, c06NewMsg(in.Msg))
+		err = proto.Unmarshal(in.bytes(), c06NewMsg(in.Msg))
 	default: // connect-underlay
-		raw := in.bytes()
-		inp = coqApp("EConnect", coqN(uint64(len(raw))))
 		cctx, ccancel := context.WithTimeout(ctx, 3*time.Second)
 		defer ccancel()
-		_, err = c06SharedService().Connect(cctx, raw)
+		_, err = c06SharedService().Connect(cctx, in.bytes())
 	}
 	if err != nil {
 		obs.Res = 1
@@ -323,6 +335,16 @@ func c06SignedReq(k *ecdsa.PrivateKey, role string) *handshakepb.HandshakeReq {
 	return &handshakepb.HandshakeReq{PeerType: role, Token: c06Secret, Sig: sig}
 }
 
+// role strings that none of p2p.FromString's cases matches
+var c06UnknownRoles = []string{"Provider", "", "bidderx", "unknown", "BIDDER", "bidder ", "validator"}
+
+func c06RoleOf(cls string, variant int) string {
+	if cls == "E2UnknownRole" {
+		return c06UnknownRoles[variant%len(c06UnknownRoles)]
+	}
+	return "bidder"
+}
+
 func c06Echo(svc *Service) *handshakepb.HandshakeResp {
 	return &handshakepb.HandshakeResp{ObservedAddress: svc.ethAddress.Bytes(), PeerType: svc.peerType.String()}
 }
@@ -375,7 +397,7 @@ func c06Initiate(ctx context.Context, adv host.Host, advKey, foreign *ecdsa.Priv
 	}
 	// the stream is left open on return (the service may still be reading); closing the host ends it
 	junk := func(n int) []byte { b := make([]byte, n); r.Read(b); return b }
-	req := c06SignedReq(advKey, "bidder")
+	req := c06SignedReq(advKey, c06RoleOf(cls, variant))
 	switch cls {
 	case "E2Garbage":
 		switch variant % 3 {
@@ -476,7 +498,7 @@ func c06Respond(adv host.Host, advKey, foreign *ecdsa.PrivateKey, svc *Service, 
 		if c06WriteMsg(s, &handshakepb.HandshakeResp{ObservedAddress: svc.ethAddress.Bytes(), PeerType: theirs.PeerType}) != nil {
 			return
 		}
-		req := c06SignedReq(advKey, "bidder")
+		req := c06SignedReq(advKey, c06RoleOf(cls, variant))
 		switch cls {
 		case "E2ForeignSig":
 			req = c06SignedReq(foreign, "bidder")
@@ -489,6 +511,13 @@ func c06Respond(adv host.Host, advKey, foreign *ecdsa.PrivateKey, svc *Service, 
 		_ = c06ReadMsg(s, new(handshakepb.HandshakeResp))
 	})
 }
+
+type c06ListStream struct{ raw []byte }
+
+func (s *c06ListStream) ReadMsg(_ context.Context, m proto.Message) error { return proto.Unmarshal(s.raw, m) }
+func (s *c06ListStream) WriteMsg(context.Context, proto.Message) error   { return nil }
+func (s *c06ListStream) Reset() error                                    { return nil }
+func (s *c06ListStream) Close() error                                    { return nil }
 
 // c06RunE2E must only be called in a child process.
 func c06RunE2E(in c06In, slow time.Duration) (obs c06Obs) {
@@ -504,6 +533,15 @@ func c06RunE2E(in c06In, slow time.Duration) (obs c06Obs) {
 		return c06Obs{Res: 2, Note: "service: " + err.Error()}
 	}
 	defer svc.Close()
+	// the node's wiring (pkg/node/node.go): a real Topology is the notifier of the Service, the real
+	// discovery protocol is its announcer and a registered stream handler
+	lg := slog.New(slog.NewTextHandler(io.Discard, &slog.HandlerOptions{Level: slog.LevelDebug}))
+	topo := topology.New(svc, lg)
+	disc := discovery.New(topo, svc, lg)
+	defer disc.Close()
+	topo.SetAnnouncer(disc)
+	svc.SetNotifier(topo)
+	svc.AddStreamHandlers(disc.Streams()...)
 	adv, err := c06RawHost(advKey)
 	if err != nil {
 		return c06Obs{Res: 2, Note: "raw host: " + err.Error()}
@@ -511,7 +549,8 @@ func c06RunE2E(in c06In, slow time.Duration) (obs c06Obs) {
 	defer adv.Close()
 	ctx, cancel := context.WithTimeout(context.Background(), 30*time.Second*slow)
 	defer cancel()
-	fails := in.Cls != "E2Honest"
+	fails := in.Cls != "E2Honest" && in.Cls != "E2UnknownRole"
+	registered := func() bool { _, ok := svc.peers.isConnected(adv.ID()); return ok }
 	var note string
 	if in.Entry == "e2e-inbound" {
 		if err := c06Initiate(ctx, adv, advKey, foreign, svc, in.Cls, in.Variant, r); err != nil {
@@ -519,23 +558,41 @@ func c06RunE2E(in c06In, slow time.Duration) (obs c06Obs) {
 		}
 		if fails {
 			c06AwaitFailure(svc, false, slow)
-		} else if !c06Until(10*time.Second*slow, func() bool { _, ok := svc.peers.isConnected(adv.ID()); return ok }) {
-			return c06Obs{Res: 1, Note: c06Short("honest control was not admitted; " + note)}
+		} else if !c06Until(10*time.Second*slow, registered) {
+			return c06Obs{Res: 1, Note: c06Short("the valid handshake did not register the peer; " + note)}
 		}
 	} else {
 		c06Respond(adv, advKey, foreign, svc, in.Cls, in.Variant, r)
 		info, _ := peer.AddrInfo{ID: adv.ID(), Addrs: adv.Addrs()}.MarshalJSON()
-		cctx, ccancel := context.WithTimeout(ctx, 10*time.Second*slow)
-		_, err := svc.Connect(cctx, info)
-		ccancel()
-		if err != nil {
-			note = "connect: " + err.Error()
+		if in.Cls == "E2UnknownRole" {
+			// as in production: the underlay arrives in a gossiped peer list, discovery's worker dials
+			// it and hands the resulting peer to the topology
+			raw, _ := proto.Marshal(&discoverypb.PeerList{Peers: []*discoverypb.PeerInfo{{
+				EthAddress: crypto.PubkeyToAddress(advKey.PublicKey).Bytes(), Underlay: info}}})
+			if err := disc.Streams()[0].Handler(ctx, p2p.Peer{Type: p2p.PeerTypeBootnode}, &c06ListStream{raw: raw}); err != nil {
+				note = "peer list: " + err.Error()
+			}
+			if !c06Until(10*time.Second*slow, registered) {
+				return c06Obs{Res: 1, Note: c06Short("the valid handshake did not register the peer; " + note)}
+			}
+		} else {
+			cctx, ccancel := context.WithTimeout(ctx, 10*time.Second*slow)
+			_, err := svc.Connect(cctx, info)
+			ccancel()
+			if err != nil {
+				note = "connect: " + err.Error()
+			}
+			if fails {
+				c06AwaitFailure(svc, true, slow)
+			} else if err != nil {
+				return c06Obs{Res: 1, Note: c06Short("honest control: " + note)}
+			}
 		}
-		if fails {
-			c06AwaitFailure(svc, true, slow)
-		} else if err != nil {
-			return c06Obs{Res: 1, Note: c06Short("honest control: " + note)}
-		}
+	}
+	if in.Cls == "E2UnknownRole" {
+		// the peer has been registered; what follows on the same goroutine (notifier.Connected resp.
+		// topology.AddPeers) takes microseconds
+		time.Sleep(300 * time.Millisecond * slow)
 	}
 	// the node keeps serving other peers: an honest one is admitted afterwards
 	hon, err := c06RawHost(honestKey)
@@ -736,7 +793,7 @@ func c06CoqE2E(in c06In) string {
 	return coqApp(ctor, coqBool(in.Registry), in.Cls)
 }
 
-var c06Classes = []string{"E2Honest", "E2Garbage", "E2ForeignSig", "E2ShortSig", "E2CloseEarly", "E2Oversized", "E2WrongType", "E2BadEcho"}
+var c06Classes = []string{"E2Honest", "E2Garbage", "E2ForeignSig", "E2ShortSig", "E2CloseEarly", "E2Oversized", "E2WrongType", "E2BadEcho", "E2UnknownRole"}
 
 func c06ValidClass(c string) bool {
 	for _, k := range c06Classes {
@@ -782,10 +839,13 @@ func c06Child(t *testing.T) {
 		}
 		put(c06ChildLine{I: i, Start: true})
 		var obs c06Obs
-		if in.Entry == "e2e-stress" {
+		switch {
+		case in.Entry == "e2e-stress":
 			obs = c06RunStress(in, time.Duration(slow))
-		} else {
+		case strings.HasPrefix(in.Entry, "e2e-"):
 			obs = c06RunE2E(in, time.Duration(slow))
+		default:
+			obs = c06RunLocal(in)
 		}
 		put(c06ChildLine{I: i, Obs: &obs})
 	}
@@ -832,6 +892,7 @@ func c06RunInChildren(t *testing.T, ins []c06In, slow int) []c06Obs {
 		t.Fatalf("c06: %v", err)
 	}
 	from := 0
+	stalled := false
 	for from < len(ins) {
 		os.Remove(resPath)
 		ctx, cancel := context.WithTimeout(context.Background(), time.Duration(slow)*15*time.Minute)
@@ -862,8 +923,16 @@ func c06RunInChildren(t *testing.T, ins []c06In, slow int) []c06Obs {
 			out[started] = c06Obs{Panic: true, Note: c06CrashNote(string(outb))}
 			done = started
 		} else if done < from {
-			t.Fatalf("c06: child made no progress from case %d: %v\n%s", from, runErr, outb)
+			// the child ended without even starting case [from] (it could not be run, or it was killed
+			// between two cases): try once more, then record the case as not classified and move on
+			if !stalled {
+				stalled = true
+				continue
+			}
+			out[from] = c06Obs{Res: 2, Note: c06Short(fmt.Sprintf("child could not run this case: %v; %s", runErr, c06CrashNote(string(outb))))}
+			done = from
 		}
+		stalled = false
 		from = done + 1
 	}
 	return out
@@ -1180,8 +1249,17 @@ func TestVerifC06(t *testing.T) {
 			}
 			return
 		}
-		obs, inp := c06RunLocal(in)
-		emit(class, in, obs, inp)
+		if in.Entry == "unmarshal" {
+			emit(class, in, c06RunLocal(in), c06LocalInp(in))
+			return
+		}
+		children = append(children, pending{class, in}) // a goroutine that is not the driver's reads / dials
+	}
+	coqInp := func(in c06In) string {
+		if strings.HasPrefix(in.Entry, "e2e-") {
+			return c06CoqE2E(in)
+		}
+		return c06LocalInp(in)
 	}
 	flush := func() {
 		ins := make([]c06In, len(children))
@@ -1189,7 +1267,7 @@ func TestVerifC06(t *testing.T) {
 			ins[i] = p.in
 		}
 		for i, obs := range c06RunInChildren(t, ins, e.Slow) {
-			emit(children[i].class, children[i].in, obs, c06CoqE2E(children[i].in))
+			emit(children[i].class, children[i].in, obs, coqInp(children[i].in))
 		}
 		children = nil
 	}
@@ -1211,6 +1289,24 @@ func TestVerifC06(t *testing.T) {
 		in = c06GenFrame(r, "read-header")
 		run("header-"+in.FC, in)
 	}
+	// length prefixes around 64 KiB, 1 MiB and the 8 MiB limit, with and without the announced payload
+	for _, n := range []int{65535, 65536, 65537, 1 << 20, 8 << 20, 8<<20 + 1} {
+		var pre [4]byte
+		binary.BigEndian.PutUint32(pre[:], uint32(n))
+		for _, entry := range []string{"read-msg", "read-header"} {
+			run("frame-boundary-prefix-only", c06In{Pkg: c06Pkg, Entry: entry, FC: "FTruncated", Raw: append(pre[:], c06Junk(r, 10)...)})
+			run("frame-boundary-with-payload", c06In{Pkg: c06Pkg, Entry: entry, FC: "FRandom", Raw: pre[:], Fill: []byte{0x41}, FillN: n})
+			// the same size as a well-formed envelope / header whose single field fills the frame
+			k := n - 1 - protowire.SizeVarint(uint64(n))
+			for 1+protowire.SizeVarint(uint64(k))+k > n {
+				k--
+			}
+			body := protowire.AppendVarint(protowire.AppendTag(nil, 1, protowire.BytesType), uint64(k))
+			var pre2 [4]byte
+			binary.BigEndian.PutUint32(pre2[:], uint32(len(body)+k))
+			run("frame-boundary-envelope", c06In{Pkg: c06Pkg, Entry: entry, FC: "FRandom", Raw: append(pre2[:], body...), Fill: []byte{0x41}, FillN: k})
+		}
+	}
 	for i := 0; i < 6*e.N; i++ {
 		run("unmarshal", c06GenUnmarshal(r))
 	}
@@ -1231,7 +1327,7 @@ func TestVerifC06(t *testing.T) {
 	for k := 0; k < rounds; k++ {
 		for ci, cls := range c06Classes {
 			run("e2e-inbound-"+cls, c06In{Pkg: c06Pkg, Entry: "e2e-inbound", Cls: cls, Variant: k + ci, Seed: r.Int63()})
-			if full || ci%3 == 1 {
+			if full || ci%3 == 1 || cls == "E2UnknownRole" {
 				run("e2e-outbound-"+cls, c06In{Pkg: c06Pkg, Entry: "e2e-outbound", Cls: cls, Variant: k, Seed: r.Int63()})
 			}
 			if full || ci == 2 {
